@@ -241,7 +241,9 @@ func (c *Conn) Read(p []byte) (int, error) {
 			case c.deadline != 0 && s.ClockNoPoint() >= c.deadline:
 				err = &net.OpError{Op: "read", Net: "tcp", Source: c.local, Addr: c.remote, Err: timeoutError{}}
 			case len(c.in.buf) > 0:
-				n = copy(p, c.in.buf)
+				// (on the scheduler's goroutine: the write into the reader's buffer is announced
+				// on the reader's own goroutine below)
+				n = rawCopy(p, c.in.buf)
 				c.in.buf = c.in.buf[n:]
 				if c.eofWithData && len(c.in.buf) == 0 && c.in.wclosed {
 					// the io.Reader contract allows the last bytes and the end of the stream in
@@ -271,7 +273,25 @@ func (c *Conn) Read(p []byte) (int, error) {
 	return n, err
 }
 
+// rawCopy moves bytes between a pipe and a caller's buffer without telling the race detector:
+// it runs on the scheduler's goroutine on behalf of a parked thread, whose own goroutine
+// announces the access (RaceReadRange at the entry of Write, RaceWriteRange at the end of Read)
+// with that thread's happens-before history.  The scheduler's goroutine has no such history;
+// its accesses would only push the announced ones out of the detector's shadow cells.
+//
 //go:norace
+//go:norace
+func rawCopy(dst, src []byte) int {
+	n := len(src)
+	if len(dst) < n {
+		n = len(dst)
+	}
+	for i := 0; i < n; i++ {
+		dst[i] = src[i]
+	}
+	return n
+}
+
 func (c *Conn) Write(p []byte) (int, error) {
 	done := 0
 	var err error
@@ -303,7 +323,11 @@ func (c *Conn) Write(p []byte) (int, error) {
 					if c.out.cap > 0 && k > c.out.cap-len(c.out.buf) {
 						k = c.out.cap - len(c.out.buf)
 					}
-					c.out.buf = append(c.out.buf, p[done:done+k]...)
+					// (on the scheduler's goroutine: the read of the writer's buffer was announced
+					// on the writer's own goroutine at entry)
+					old := len(c.out.buf)
+					c.out.buf = append(c.out.buf, make([]byte, k)...)
+					rawCopy(c.out.buf[old:], p[done:done+k])
 					c.out.total += int64(k)
 					done += k
 				}
